@@ -39,6 +39,19 @@ type program struct {
 	Slots  []slot `json:"slots"`
 	Marker int    `json:"marker"` // position of SecMarker M1 (before slot i), len = after all, -1 = absent
 	Engine string `json:"engine"`
+	// MName: the marker's name when it is not M1 (a name that is also the id of a rule must still be a marker only)
+	MName string `json:"mname,omitempty"`
+	// Dup: 1 + position of a second SecMarker with the same name (0 = none)
+	Dup int `json:"dup,omitempty"`
+}
+
+func (p program) markerAt(i int) bool { return p.Marker == i || (p.Dup > 0 && p.Dup-1 == i) }
+
+func (p program) mname() string {
+	if p.MName != "" {
+		return p.MName
+	}
+	return "M1"
 }
 
 type kase struct {
@@ -59,10 +72,10 @@ func (p program) conf() string {
 	fmt.Fprintf(&sb, "SecRuleEngine %s\nSecRequestBodyAccess On\nSecResponseBodyAccess On\n", p.Engine)
 	bit := 0
 	for i, s := range p.Slots {
-		if p.Marker == i {
-			sb.WriteString("SecMarker M1\n")
+		if p.markerAt(i) {
+			sb.WriteString("SecMarker " + p.mname() + "\n")
 		}
-		acts := fmt.Sprintf("id:%d,phase:%d,log,%s", i+1, s.Phase, s.Action)
+		acts := fmt.Sprintf("id:%d,phase:%d,log,%s", i+1, s.Phase, strings.ReplaceAll(s.Action, "skipAfter:M1", "skipAfter:"+p.mname()))
 		if strings.HasPrefix(s.Action, "deny") {
 			acts += ",status:403"
 		}
@@ -80,8 +93,8 @@ func (p program) conf() string {
 			bit++
 		}
 	}
-	if p.Marker == len(p.Slots) {
-		sb.WriteString("SecMarker M1\n")
+	if p.markerAt(len(p.Slots)) {
+		sb.WriteString("SecMarker " + p.mname() + "\n")
 	}
 	return sb.String()
 }
@@ -112,7 +125,7 @@ func model(p program, bits []bool) (fired []int, itr int, specified bool, flow b
 		for i, s := range p.Slots {
 			myBit := bit
 			bit += s.Chain
-			if p.Marker == i {
+			if p.markerAt(i) {
 				// marker before slot i
 				if skipAfter == "M1" {
 					skipAfter = ""
@@ -197,7 +210,7 @@ func model(p program, bits []bool) (fired []int, itr int, specified bool, flow b
 				}
 			}
 		}
-		if p.Marker == len(p.Slots) && skipAfter == "M1" {
+		if p.markerAt(len(p.Slots)) && skipAfter == "M1" {
 			skipAfter = ""
 		}
 		// nothing but the documented scope of allow survives a phase end
@@ -226,9 +239,15 @@ type family struct {
 	// A family with chainLens set chains every action of its menu (the starter's disruptive and flow actions
 	// run only when every link matched - for every action, not only the four).
 	chainLens []int
+	// variants of the marker: its name (also the id of a rule between the jump and the marker) and a second
+	// marker of the same name (the jump lies between the two)
+	mname string
+	dups  []int // parallel to markers: 1 + position of the duplicate, 0 = none
 }
 
 var actionsEngine = []string{"pass", "allow", "allow:request", "allow:phase", "deny", "skip:1", "ctl:ruleEngine=On", "ctl:ruleEngine=DetectionOnly"}
+
+var actionsMarker = []string{"pass", "skipAfter:M1", "skip:1", "deny"}
 
 var actionsReduced = []string{"pass", "skip:1", "skipAfter:M1", "skipAfter:ABSENT", "allow", "allow:phase", "deny"}
 
@@ -245,11 +264,17 @@ func programs(thorough bool, emit func(p program)) {
 	// every action of the menu on the starter
 	longChains := family{n: 2, phases: []int{1, 2, 5}, actions: actionsQuick, combined: "any", markers: []int{-1, 0, 1, 2}, detOnly: []int{-1, 1}, chainLens: []int{3, 4}}
 	fams = append(fams, longChains)
+	markerFams := []family{
+		{n: 3, phases: []int{1, 2, 5}, actions: actionsMarker, combined: "first", markers: []int{3, 2}, mname: "2"},
+		{n: 3, phases: []int{1, 2, 5}, actions: actionsMarker, combined: "first", markers: []int{0, 1, 0}, dups: []int{4, 4, 3}},
+	}
+	fams = append(fams, markerFams...)
 	if thorough {
 		longChains.n = 3
 		fams = []family{
 			engineFam,
 			longChains,
+			markerFams[0], markerFams[1],
 			{n: 3, phases: []int{1, 2, 5}, actions: actionsQuick, combined: "any", markers: []int{-1, 0, 1, 2, 3}, detOnly: []int{-1, 0, 1, 2, 3}},
 			// all five phases with three slots
 			{n: 3, phases: []int{1, 2, 3, 4, 5}, actions: actionsQuick, combined: "first", markers: []int{-1, 0, 2}, detOnly: []int{-1}},
